@@ -22,7 +22,9 @@
 //
 //	c07.roundtrip  SM2 curve: every length x contents x key / k kinds, 9 encryption variants byte-equal
 //	               to the reference under the scripted k, 5 decryption entry points, wrong key; constructed
-//	               corner cases (leading-zero coordinates, zero masks, runs of zero masks up to the retry limit)
+//	               corner cases (zero masks, runs of zero masks up to the retry limit, shared points with leading
+//	               zero octets, and the table of searched scalars whose C1 has 1..3 leading zero octets in x, y or
+//	               both - shapes.go; the same table feeds c07.legacy, c07.curves, c07.convert and c07.envelope)
 //	c07.legacy     the same on NIST P-256 keys (math/big path of the library)
 //	c07.curves     the same, smaller, on P-224 / P-384 / P-521 keys (other element sizes: 28, 48, 66 bytes),
 //	               with the tamper sweep and the hostile families
